@@ -145,6 +145,11 @@ func max4(a, b, c, d int64) int64 {
 	return m
 }
 
+// hiKnown / loKnown: the interval bound is a real bound (saturated bounds of non-constant
+// terms mean "unknown").
+func (t *Term) hiKnown() bool { return t.IsConst() || t.Hi != ivMax }
+func (t *Term) loKnown() bool { return t.IsConst() || t.Lo != ivMin }
+
 func mk(op string, s Sort, args ...*Term) *Term {
 	t := &Term{Op: op, Sort: s, Args: args}
 	if s == SInt {
@@ -258,7 +263,7 @@ func TEq(a, b *Term) *Term {
 	if a == b || a.String() == b.String() {
 		return TTrue
 	}
-	if a.Sort == SInt && (a.Hi < b.Lo || b.Hi < a.Lo) {
+	if a.Sort == SInt && ((a.hiKnown() && b.loKnown() && a.Hi < b.Lo) || (b.hiKnown() && a.loKnown() && b.Hi < a.Lo)) {
 		return TFalse
 	}
 	if a.Sort == SString {
@@ -436,10 +441,10 @@ func TLt(a, b *Term) *Term {
 	if a.IsConst() && b.IsConst() {
 		return TBool(a.I < b.I)
 	}
-	if a.Hi < b.Lo {
+	if a.hiKnown() && b.loKnown() && a.Hi < b.Lo {
 		return TTrue
 	}
-	if a.Lo >= b.Hi {
+	if a.loKnown() && b.hiKnown() && a.Lo >= b.Hi {
 		return TFalse
 	}
 	return mk("<", SBool, a, b)
@@ -454,10 +459,10 @@ func TLe(a, b *Term) *Term {
 	if a.IsConst() && b.IsConst() {
 		return TBool(a.I <= b.I)
 	}
-	if a.Hi <= b.Lo {
+	if a.hiKnown() && b.loKnown() && a.Hi <= b.Lo {
 		return TTrue
 	}
-	if a.Lo > b.Hi {
+	if a.loKnown() && b.hiKnown() && a.Lo > b.Hi {
 		return TFalse
 	}
 	return mk("<=", SBool, a, b)
